@@ -63,6 +63,8 @@ viacut(X) :- firstfin(X).
 viacut(z).
 viacut2(X) :- cutnat(X).
 viacut2(X) :- fin(X).
+fm(L) :- findall(X, mem(X,[a,b,c]), L).
+fl(L,Xs) :- findall(X, mem(X,Xs), L).
 '''
 _LIB = None
 
@@ -89,7 +91,7 @@ def gen(seed, tier):
             ['nat', [V(0)]], ['loop', [V(0)]], ['lr', [V(0)]], ['deep', [V(0)]], ['two', [V(0), V(1)]],
             ['app', [V(0), V(1), lst(n % 9)]], ['len', [lst(n), V(0)]], ['len', [V(0), V(1)]], ['fin', [V(0)]],
             ['mem', [V(0), lst(n, ('a', 'b'))]], ['both', [V(0), V(1)]], ['cutnat', [V(0)]], ['ite', [V(0)]],
-            ['nat', [['f', 's', [['f', 's', [V(0)]]]]]], ['undefined_pred', [V(0)]], ['viacut', [V(0)]], ['viacut2', [V(0)]],
+            ['nat', [['f', 's', [['f', 's', [V(0)]]]]]], ['undefined_pred', [V(0)]], ['viacut', [V(0)]], ['viacut2', [V(0)]], ['fm', [V(0)]], ['fl', [V(0), lst(n, ('a', 'b'))]], ['fl', [V(0), lst(max(n, 8), ('a', 'c'))]],
         ])
         world = None
     else:
